@@ -461,6 +461,17 @@ func createUpstreamRequest(rw http.ResponseWriter, r *http.Request) (*http.Reque
 		outreq.Header.Set("X-Forwarded-For", clientIP)
 	}
 
+	if _, ok := outreq.Header["User-Agent"]; !ok {
+		// the transport would add its own User-Agent to a request
+		// that came without one; an empty value keeps it from doing so
+		if !copiedHeaders {
+			outreq.Header = make(http.Header)
+			copyHeader(outreq.Header, r.Header)
+			copiedHeaders = true
+		}
+		outreq.Header.Set("User-Agent", "")
+	}
+
 	return outreq, cancel
 }
 
